@@ -250,6 +250,50 @@ func c05Enrich(r *rng, ss ast.Schemas, rate int) {
 			g.Hints[ast.HintDiscriminatedDisjunctionOfRefs] = payload
 			s.AddObject(ast.NewObject(s.Package, c05FreshName(s, "AOrB"), g))
 		}
+		// alias chains of length 2-3 ending in a scalar / array / map, referenced from a struct field,
+		// an array item, a map value and a union branch (declaration order is permuted afterwards)
+		if r.chance(rate) {
+			var base ast.Type
+			switch r.intn(4) {
+			case 0:
+				base = ast.String()
+			case 1:
+				base = ast.NewArray(ast.String())
+			case 2:
+				base = ast.NewMap(ast.String(), ast.NewScalar(ast.KindInt64))
+			default:
+				base = ast.NewScalar(ast.KindInt64)
+			}
+			n := 2 + r.intn(2)
+			names := []string{}
+			for i := 0; i < n; i++ {
+				names = append(names, c05FreshName(s, pick(r, []string{"UID", "Identifier", "Alias", "Handle"})))
+				s.AddObject(ast.NewObject(s.Package, names[i], ast.String())) // placeholder, reserves the name
+			}
+			for i, nm := range names {
+				t := base
+				if i+1 < n {
+					t = ast.NewRef(s.Package, names[i+1])
+				}
+				s.AddObject(ast.NewObject(s.Package, nm, t))
+			}
+			head := func() ast.Type { return ast.NewRef(s.Package, names[r.intn(n-1)]) }
+			switch r.intn(4) {
+			case 0:
+				addField(ast.NewStructField("uid", head()))
+			case 1:
+				addField(ast.NewStructField("uids", ast.NewArray(head())))
+			case 2:
+				addField(ast.NewStructField("byName", ast.NewMap(ast.String(), head())))
+			default:
+				addField(ast.NewStructField("uidOrNum", ast.NewDisjunction(ast.Types{head(), ast.NewScalar(ast.KindBool)})))
+			}
+			if r.chance(50) {
+				f := ast.NewStructField("uid2", head())
+				f.Required = true
+				addField(f)
+			}
+		}
 		if s.EntryPoint == "" && r.chance(rate) {
 			ep := pick(r, c05Keys(s))
 			s.EntryPoint = ep
